@@ -15,36 +15,38 @@ _ENUM_CASES = 3 * (26 + 28 + 27 + 1)
 def _stages(tier):
     # asan: only operations with non-finite reals and the known setSettings crash pattern are probed in a forked child (a fork of an ASan
     # process costs ~4 ms); any other crash goes through the driver's crash isolation.  opt: every operation is probed.
-    a, o = (60000, 240000) if tier == 'thorough' else (2400, 8000)
+    a, o = (40000, 200000) if tier == 'thorough' else (2400, 8000)
     return [dict(name='asan', harness='h_param', flavour='asan', cases=a, args={'probe': 'risky'}),
             dict(name='opt', harness='h_param', flavour='opt', cases=o, args={'probe': 'all'})]
 
 
 def _minima(tier):
     q = tier == 'quick'
+    def n(quick):                                     # thorough = 23 x the quick budget; minima at 15 x the quick minima
+        return quick if q else 15 * quick
     return {
-        'cases': 9000 if q else 250000,
+        'cases': 9000 if q else 200000,
         'enum.cases': 2 * _ENUM_CASES,                 # complete enumeration in the asan and in the opt stage
         'distinct:cells': 1800,                        # distinct (operation, parameter, value class) cells; complete enumeration gives 1875
-        'oracle.evaluations': 300000 if q else 9000000,
-        'ops.setBoolParam': 20000 if q else 600000,
-        'ops.setIntParam': 30000 if q else 900000,
-        'ops.setRealParam': 30000 if q else 900000,
-        'ops.setRandomSeed': 10000 if q else 300000,
-        'ops.parseSettingsString': 40000 if q else 1000000,
-        'ops.loadSettingsFile': 30000 if q else 800000,
-        'ops.saveSettingsFile': 25000 if q else 700000,
-        'reload.checked': 25000 if q else 700000,
-        'ops.resetSettings': 15000 if q else 400000,
-        'ops.setSettings': 20000 if q else 600000,
-        'ops.loadLP': 5000 if q else 150000,
-        'oracle.rational_lp_checked': 5000 if q else 150000,
-        'probe.forks': 150000 if q else 4500000,
-        'behaviour.iterlimit_checked': 60 if q else 2000,
-        'behaviour.objsense_checked': 300 if q else 10000,
-        'behaviour.verbosity_checked': 300 if q else 10000,
-        'behaviour.tolerance_checked': 150 if q else 5000,
-        'behaviour.offset_checked': 150 if q else 5000,
+        'oracle.evaluations': n(300000),
+        'ops.setBoolParam': n(20000),
+        'ops.setIntParam': n(30000),
+        'ops.setRealParam': n(30000),
+        'ops.setRandomSeed': n(10000),
+        'ops.parseSettingsString': n(40000),
+        'ops.loadSettingsFile': n(30000),
+        'ops.saveSettingsFile': n(25000),
+        'reload.checked': n(25000),
+        'ops.resetSettings': n(15000),
+        'ops.setSettings': n(20000),
+        'ops.loadLP': n(5000),
+        'oracle.rational_lp_checked': n(5000),
+        'probe.forks': n(150000),
+        'behaviour.iterlimit_checked': n(60),
+        'behaviour.objsense_checked': n(300),
+        'behaviour.verbosity_checked': n(300),
+        'behaviour.tolerance_checked': n(150),
+        'behaviour.offset_checked': n(150),
         # every value class of every parameter type was exercised through the typed setter (spot check of the pc.* table)
         'pc.feastol.nan': 6, 'pc.feastol.below-min': 6, 'pc.feastol.above-max': 6, 'pc.feastol.+inf': 6, 'pc.feastol.-inf': 6,
         'pc.obj_offset.nan': 6, 'pc.infty.nan': 6, 'pc.simplifier.2': 6, 'pc.objsense.non-enum': 6, 'pc.verbosity.above-max': 6,
